@@ -6,6 +6,7 @@ import Np.Proofs.IndexFns
 import Np.Proofs.SelectFns
 import Np.Proofs.AdvIndexFns
 import Np.Proofs.GenIndexFns
+import Np.Proofs.MoveaxisSeq
 /-! C09 — shape functions and indexing move whole polynomial elements like numpy: property theorems, for *every*
 index map (hence every shape, axis, index or section argument numpy accepts) -/
 namespace Np.Props.C09
@@ -178,6 +179,23 @@ theorem moveaxis_reads {shape out idx : List Nat} {src dst : Nat} (h : moveaxisF
       idx[ravel out j]? = some (ravel shape
         ((List.range shape.length).map fun a => j.getD ((moveaxisPerm shape.length src dst).idxOf a) 0)) :=
   ⟨(moveaxisF_spec h).1, moveaxisF_perm h, fun j hj => ((moveaxisF_spec h).2 j hj).1⟩
+
+/-- `numpy.moveaxis(a, source, destination)` with sequences of axes is the transpose by the order `moveaxisSeqPerm` builds -
+the axes that stay, in their order, then every (destination, source) pair, sorted by destination, inserted at its
+destination -, and that order has source `s_i` at position `d_i` for every pair: axis `d_i` of the result is axis `s_i` of
+the operand (`transpose_reads`). Inserting the pairs in the order given does not have this property. -/
+theorem moveaxis_sequences_put_sources (n : Nat) (src dst : List Nat) (hlen : src.length = dst.length)
+    (hs : src.Nodup) (hd : dst.Nodup) (hsr : ∀ a ∈ src, a < n) (hdr : ∀ a ∈ dst, a < n) :
+    ∀ p ∈ List.zip dst src, (moveaxisSeqPerm n src dst).getD p.1 0 = p.2 :=
+  moveaxisSeqPerm_puts_sources n src dst hlen hs hd hsr hdr
+theorem moveaxis_sequences_is_transpose {shape src dst out idx : List Nat} (h : moveaxisSeqF shape src dst = some (out, idx)) :
+    transposeF shape (moveaxisSeqPerm shape.length src dst) = some (out, idx) := by
+  unfold moveaxisSeqF at h
+  split at h
+  · exact h
+  · simp at h
+example : moveaxisSeqPerm 3 [0, 1] [1, 0] = [1, 0, 2] ∧
+    (([1, 0].zip [0, 1]).foldl (fun order (p : Nat × Nat) => order.insertIdx p.1 p.2) [2]) = [1, 2, 0] := by decide
 
 /-- non-vacuity: numpy.transpose(arange(6).reshape(2,3)) and numpy.concatenate of a 2x2 and a 1x2 block -/
 example : transposeF [2, 3] [1, 0] = some ([3, 2], [0, 3, 1, 4, 2, 5]) := by decide
